@@ -26,7 +26,8 @@ def worker(i):
     wt = '/tmp/pw-%d' % i
     cache = '/tmp/pw-%d-cache' % i
     ev = '/tmp/pw-%d-evidence' % i
-    subprocess.run(['git', '-C', '/repo', 'worktree', 'add', '-q', '--detach', wt, 'HEAD'], check=True)
+    with lock:      # concurrent `git worktree add` calls race on .git/worktrees
+        subprocess.run(['git', '-C', '/repo', 'worktree', 'add', '-q', '--detach', wt, 'HEAD'], check=True)
     shutil.copytree(V + '/.cache', cache, symlinks=True, ignore=shutil.ignore_patterns('extract.lock'))
     os.makedirs(ev, exist_ok=True)
     env = dict(os.environ, VJSX_REPO=wt, VJSX_CACHE=cache, VJSX_EVIDENCE=ev)
@@ -37,7 +38,7 @@ def worker(i):
             except queue.Empty:
                 break
             name = os.path.basename(s.rstrip('/'))
-            meta = json.load(open(s + 'meta.json'))
+            meta = json.load(open(s + 'meta.json')) if os.path.exists(s + 'meta.json') else {}
             subprocess.run(['git', '-C', wt, 'checkout', '-q', '--', '.'])
             if subprocess.run(['git', '-C', wt, 'apply', s + 'patch.diff'], capture_output=True).returncode != 0:
                 with lock:
@@ -61,7 +62,8 @@ def worker(i):
                     out[name] = hits
                     print(name, 'SILENT' if not hits else 'ALARMS', json.dumps(hits)[:900], flush=True)
     finally:
-        subprocess.run(['git', '-C', '/repo', 'worktree', 'remove', '--force', wt])
+        with lock:
+            subprocess.run(['git', '-C', '/repo', 'worktree', 'remove', '--force', wt])
         shutil.rmtree(cache, ignore_errors=True)
         shutil.rmtree(ev, ignore_errors=True)
 
